@@ -168,11 +168,12 @@ Theorem kappa2_from_invariants : forall s l,
 Proof. exact AlgebraProofs.kappa2_from_invariants. Qed.
 Print Assumptions kappa2_from_invariants.
 
+(* the formulas regenerated from shape.py are the documented ones:
+   b = l2 - (l0+l1)/2,  c = l1 - l0,  kappa^2 = 3/2 (l0^2+l1^2+l2^2)/(l0+l1+l2)^2 - 1/2 *)
 Theorem shape_descriptor_forms : forall l0 l1 l2,
-  shape_asphericity l0 l1 l2 == l2 - (l0 + l1) / (2 # 1) /\
-  shape_acylindricity l0 l1 l2 == l1 - l0 /\
-  shape_kappa2 l0 l1 l2 ==
-    (3 # 2) * (l0 * l0 + l1 * l1 + l2 * l2) / ((l0 + l1 + l2) * (l0 + l1 + l2)) - (1 # 2).
+  shape_asphericity l0 l1 l2 == spec_asphericity l0 l1 l2 /\
+  shape_acylindricity l0 l1 l2 == spec_acylindricity l0 l1 l2 /\
+  (~ l0 + l1 + l2 == 0 -> shape_kappa2 l0 l1 l2 == spec_kappa2 l0 l1 l2).
 Proof. exact shape_forms. Qed.
 Print Assumptions shape_descriptor_forms.
 
@@ -192,7 +193,7 @@ Print Assumptions shape_descriptor_ranges.
 
 (* density = total mass / volume * (1 Da/nm^3 in kg/m^3) *)
 Theorem density_closed_form : forall ms v,
-  density ms v == qsum ms / v * (16605387823355087 # 10000000000000000) /\
+  density ms v == qsum ms / v * density_conversion /\
   Qabs (density_conversion - (166053906660 # 100000000000)) <= (1 # 1000000).
 Proof. intros ms v. split; [exact (density_form ms v) | exact density_conversion_value]. Qed.
 Print Assumptions density_closed_form.
@@ -223,13 +224,16 @@ Theorem shell_volumes_telescope : forall pi e0 es,
 Proof. exact RdfProofs.shell_volumes_telescope. Qed.
 Print Assumptions shell_volumes_telescope.
 
-Theorem rdf_forms : forall pi lo hi npairs siv v,
-  rdf_shell_volume pi lo hi == (4 # 3) * pi * (hi * hi * hi - lo * lo * lo) /\
-  rdf_bin_centre lo hi == (lo + hi) / (2 # 1) /\
-  rdf_norm npairs siv v == npairs * siv * v.
+(* the blocks regenerated from rdf.py are the documented ones: 4/3 pi (hi^3 - lo^3), (lo+hi)/2,
+   n_pairs * sum_f 1/V_f * V_shell, (r_max - r_min)/bin_width *)
+Theorem rdf_forms : forall pi lo hi npairs siv v r0 r1 bw,
+  rdf_shell_volume pi lo hi == spec_shell_volume pi lo hi /\
+  rdf_bin_centre lo hi == spec_bin_centre lo hi /\
+  rdf_norm npairs siv v == spec_norm npairs siv v /\
+  rdf_nbins_quotient r0 r1 bw == spec_nbins_quotient r0 r1 bw.
 Proof.
   intros. destruct (shell_and_centre_forms pi lo hi) as [H1 H2].
-  split; [exact H1|]. split; [exact H2|exact (norm_form npairs siv v)].
+  split; [exact H1|]. split; [exact H2|]. split; [exact (norm_form npairs siv v)|exact (nbins_quotient_form r0 r1 bw)].
 Qed.
 Print Assumptions rdf_forms.
 
